@@ -447,6 +447,70 @@ def mutate_stream(rng, docs, tier):
 
 
 # --------------------------------------------------------------------------
+# enber on line records that unber would not print: the lines of a tree with one
+# attribute edited (TL missing/wrong, V wrong or out of ssize_t range, tag number
+# out of range, content of the wrong length, missing closer)
+
+
+def records(t, lv, off):
+    tag = (t[2] << 2) | t[1]
+    if t[0] == 'P':
+        hl = len(enc_tag(t[1], t[2], False)) + len(enc_len(len(t[3])))
+        return [["P", lv, off, tag, hl, len(t[3]), t[3]]], hl + len(t[3])
+    body, pos = [], 0
+    definite = t[3]
+    content = b"".join(encode(c) for c in t[4])
+    hl = len(enc_tag(t[1], t[2], True)) + (len(enc_len(len(content))) if definite else 1)
+    for c in t[4]:
+        r, n = records(c, lv + 1, off + hl + pos)
+        body += r
+        pos += n
+    size = hl + pos + (0 if definite else 2)
+    close = ["C", lv, off + size, tag, size] if definite else ["I", lv, off + size - 2, size]
+    return [["O", lv, off, tag, hl, len(content) if definite else -1]] + body + [close], size
+
+
+def rec_tokens(rs):
+    out = []
+    for r in rs:
+        if out:
+            out.append("/")
+        out += [str(v) if not isinstance(v, bytes) else hexs(v) for v in r]
+    return " ".join(out)
+
+
+def mutate_records(rng, rs):
+    rs = [list(r) for r in rs]
+    opens = [k for k, r in enumerate(rs) if r[0] in "OP"]
+    k = rng.choice(opens)
+    r = rs[k]
+    m = rng.below(12)
+    what = "none"
+    if m == 0:
+        r[4] = 0; what = "TL=0"
+    elif m == 1:
+        r[4] = rng.choice([1, r[4] + 1, max(2, r[4] - 1), 2**63, 2**63 - 1, 31, 32]); what = "TL"
+    elif m == 2 and r[5] >= 0:
+        r[5] = rng.choice([r[5] + 1, max(0, r[5] - 1), 127, 128, 2**62, 2**63, 2**64 - 1]); what = "V"
+    elif m == 3:
+        cls = r[3] & 3
+        r[3] = (rng.choice([2**30 - 1, 2**30, 2**32 - 1, 2**32, 2**32 + 5, 2**31]) << 2) | cls; what = "tagnum"
+    elif m == 4:
+        r[3] = (r[3] & ~3) | rng.below(4); what = "class"
+    elif m == 5 and r[0] == "P":
+        r[6] = r[6] + rng.bytes(1 + rng.below(3)) if rng.chance(1, 2) else r[6][:max(0, len(r[6]) - 1)]; what = "content"
+    elif m == 6:
+        cl = [j for j, q in enumerate(rs) if q[0] == "I"]
+        if cl:
+            del rs[rng.choice(cl)]; what = "drop-closer"
+    elif m == 7 and r[0] == "O":
+        r[5] = -1 if r[5] >= 0 else 0; what = "C<->I"
+    elif m == 8:
+        r[4] = 0; r[3] = (rng.below(2**20) << 2) | rng.below(4); what = "TL=0+tag"
+    elif m == 9 and r[0] == "P":
+        n = rng.choice([127, 128, 255, 256])
+        r[6] = rng.bytes(n); r[5] = n; r[4] = 0; what = "TL=0+content"
+    return rs, what
 
 
 def main(tier):
@@ -576,6 +640,43 @@ def main(tier):
         raise RuntimeError("model driver failed on spec queries: rc=%s %s" % (rc_s, se))
     sres = {i: (so[2 * k], so[2 * k + 1]) for k, i in enumerate(sidx)}
 
+    # 5b. enber alone on edited line records: model's enber on the records vs the binary on their rendering
+    rec_cases = []
+    src = [c[2][0] for c in cases if c[0] in ("wf-random", "wf-boundary") and c[2] and len(c[1]) <= 400]
+    for j in range(600 if quick else 8000):
+        t = src[rng.below(len(src))]
+        rs, what = mutate_records(rng, records(t, 0, 0)[0])
+        rec_cases.append((what, rs))
+    rl = []
+    for what, rs in rec_cases:
+        tk = rec_tokens(rs)
+        rl += ["render_recs " + tk, "enber_recs " + tk]
+    rc_r, ro, re_ = run_lines(model, rl, timeout=900)
+    if rc_r != 0 or len(ro) != len(rl):
+        raise RuntimeError("model driver failed on record queries: rc=%s %s" % (rc_r, re_))
+    texts = [(b"" if ro[2 * k] == "-" else ro[2 * k].replace("|", "\n").encode()) for k in range(len(rec_cases))]
+
+    def _enber_batch(idxs):
+        return [(k,) + _run([enber, "-"], inp=texts[k]) for k in idxs]
+    with multiprocessing.pool.ThreadPool(NCPU) as tp:
+        eres = {}
+        for part in tp.map(_enber_batch, [list(range(k, len(texts), NCPU)) for k in range(NCPU)]):
+            for k, erc, eout, eerr in part:
+                eres[k] = (erc, eout, eerr)
+    for k, (what, rs) in enumerate(rec_cases):
+        erc, eout, eerr = eres[k]
+        eex = enber_exit(erc, eerr)
+        m_eex, m_ehex = ro[2 * k + 1].split(" ", 1)
+        m_ebytes = b"" if m_ehex == "-" else bytes.fromhex(m_ehex)
+        run.case("recs:" + rec_tokens(rs), nontrivial=True)
+        run.count("enber-records:" + what)
+        run.count("enber-records-exit:" + eex)
+        if m_eex != eex or m_ebytes != eout:
+            run.count("model_vs_code_diff")
+            run.violation("correspondence:enber-records", {"what": "model of enber and the binary disagree on edited line records", "edit": what,
+                                                            "records": rec_tokens(rs)[:1500], "text": texts[k].decode("latin1")[:1500],
+                                                            "model": m_eex, "c": eex, "model_out": m_ebytes.hex()[:400], "c_out": eout.hex()[:400],
+                                                            "c_stderr": eerr[-300:], "replay_cmd": "printf '%s' \"$text\" | enber -", "_pending": True})
     log("[c20] model done %.1fs" % (time.time() - T0))
     # 6. compare
     def replay(x):
